@@ -468,13 +468,9 @@ func parseMonitor(c pcase, in string, o pobs) []core.Violation {
 		// the old tuple of a DELETE is printed without an old-key marker: it is expected in Columns
 		expRel, expOp, expNoTuple, newT = qualified(ch.Ns, ch.Rel), "DELETE", ch.Old == nil, ch.Old
 	case "truncate":
-		expOp = "TRUNCATE"
-		if len(ch.Rels) != 1 {
-			if o.Op == "TRUNCATE" && o.Rel == printRels(ch.Rels) {
-				return viol("truncate-multi-relation-joined", fmt.Sprintf("TRUNCATE of %d relations decodes to the single relation string %q", len(ch.Rels), o.Rel))
-			}
-		}
-		expRel = printRels(ch.Rels)
+		// several truncated relations arrive as ONE string "a.b, c.d": intended by the maintainers
+		// (/repo parselogical_test.go TestTruncateCascade asserts exactly that), so not a violation
+		expOp, expRel = "TRUNCATE", printRels(ch.Rels)
 	}
 	if o.Rel != expRel {
 		return viol("relation-mismatch", fmt.Sprintf("relation %q, printed %q", o.Rel, expRel))
